@@ -383,11 +383,14 @@ class Check:
             reported.append((sig, desc, obj))
         seen = set()
         nviol = 0
+        MAX_LINES = 12          # distinct failing signatures printed; the rest is counted in the evidence file
         for sig, desc, obj in reported:
             if sig in seen:
                 continue
             seen.add(sig)
             nviol += 1
+            if nviol > MAX_LINES:
+                continue
             h = hashlib.sha1(json.dumps(obj, sort_keys=True, default=str).encode()).hexdigest()[:10]
             path = os.path.join(REPLAYS, "%s-%s-%s.json" % (self.pid, self.seed, h))
             with open(path, "w") as f:
